@@ -35,7 +35,8 @@ SOCK_SLOTS = {
     "abind": (None, {"src/lib/ares_socket.c"}),
     "agetsockname": (None, {"src/lib/ares_conn.c", "src/lib/ares_sortaddrinfo.c"}),
 }
-CLOSE_CALLERS = {"ares_close_connection", "ares_open_connection", "find_src_addr"}
+CLOSE_CALLERS = {"ares_close_connection", "ares_open_connection", "find_src_addr",
+                 "ares_socket_open"}      # may close a descriptor it obtained itself and does not hand out (checked by R-C10-OPEN)
 OPEN_CALLERS = {"ares_open_connection", "find_src_addr"}
 LIBC_SOCK = {"socket", "closesocket", "sendto", "recvfrom", "connect", "send", "recv", "bind", "setsockopt", "getsockname"}
 LIBC_SOCK_FILES = {"src/lib/ares_set_socket_functions.c"}
